@@ -1237,6 +1237,64 @@ def zooModel : List (String × String) :=
    ("store_bridged_pointer_into_pointer_elem", "stored:9|go:[{1 []}]|[[1]]|false|[[1 2]]|int:1"),
    ("store_long_array_into_array_elem", "caught:TypeError|go:[{1 []}]|[[1]]|false|[[1 2]]|int:1"),
    ("store_utf16_string_into_interface_elem", "stored:A|go:[{1 []}]|[[1]]|false|[[1 2]]|string:A"),
-   ("nil_func_reads_undefined", "undefined,undefined|go:[{1 []}]|[[1]]|false|[[1 2]]|int:1")]
+   ("nil_func_reads_undefined", "undefined,undefined|go:[{1 []}]|[[1]]|false|[[1 2]]|int:1"),
+   ("nested_array_elem_write", "v:2|go:[[1 2] [3 4]]|[[1 2]]|[{1 []}]"),
+   ("slice_of_array_elem_write", "v:2|go:[[1 2] [3 4]]|[[1 2]]|[{1 []}]"),
+   ("slice_of_struct_field_write", "caught:TypeError|go:[[1 2] [3 4]]|[[1 2]]|[{1 []}]"),
+   ("nested_array_elem_read", "3,2,1|go:[[1 2] [3 4]]|[[1 2]]|[{1 []}]")]
+
+/-! ## histories of calls of bridged Go functions: every call delivers its OWN result list (runtime.go, the
+    reflect.Func arm of toValue: 0 results → undefined, 1 → the value, more → a fresh list) -/
+
+inductive RV | int (n : Int) | undef | err
+deriving DecidableEq, Repr
+
+inductive RRes | undef | single (v : RV) | list (vs : List RV)
+deriving DecidableEq, Repr
+
+inductive RFn | f0 | f1 | f2 | f3 | fe
+deriving DecidableEq, Repr
+
+/-- the Go functions of the harness: f0(), f1(x) = x+1, f2(a,b) = (a/b, a%b), f3(a,b) = (a, b, a+b),
+    fe(x) = (x/2, nil) for even x and (0, error) otherwise -/
+def retCall : RFn → List Int → RRes
+  | .f0, _ => .undef
+  | .f1, [x] => .single (.int (x + 1))
+  | .f2, [a, b] => .list [.int (a / b), .int (a % b)]
+  | .f3, [a, b] => .list [.int a, .int b, .int (a + b)]
+  | .fe, [x] => if x % 2 = 0 then .list [.int (x / 2), .undef] else .list [.int 0, .err]
+  | _, _ => .undef
+
+inductive RetOp where
+  | call (f : RFn) (args : List Int)        -- R.push(f(args))
+  | twice (a : Int)                         -- R.push(twice(function(x){ var t = f2(x + a, 3); R.push(t); return t[0] }))
+  | copyCall (f : RFn) (args : List Int)    -- the same function called in a Copy() of the runtime
+  | write (i j : Nat) (v : Int)             -- R[i][j] = v (inside the list)
+
+def firstInt : RRes → RV
+  | .list (v :: _) => v
+  | _ => .undef
+
+def setNth {α} : List α → Nat → α → List α
+  | [], _, _ => []
+  | _ :: r, 0, x => x :: r
+  | a :: r, n+1, x => a :: setNth r n x
+
+/-- the results the script keeps; a later call never changes an earlier result -/
+def retStep (rs : List RRes) : RetOp → List RRes
+  | .call f args => rs ++ [retCall f args]
+  | .twice a =>
+    let t1 := retCall .f2 [1 + a, 3]
+    let t2 := retCall .f2 [2 + a, 3]
+    rs ++ [t1, t2, .list [firstInt t1, firstInt t2]]
+  | .copyCall _ _ => rs
+  | .write i j v =>
+    match rs[i]? with
+    | some (.list vs) => if j < vs.length then setNth rs i (.list (setNth vs j (.int v))) else rs
+    | _ => rs
+
+def retRun (rs : List RRes) : List RetOp → List (List RRes)
+  | [] => []
+  | op :: rest => let rs' := retStep rs op; rs' :: retRun rs' rest
 
 end OttoVerif.C16
